@@ -46,7 +46,10 @@ def nextOffset (pOffset : Int) (pMeta : Int) (initial : Int) (emptyStr : Int) : 
   else
     (initial, emptyStr)
 
--- fun asyncClose: NOT TRANSLATED: statement "verifEvtKV(\"lc.pom.done\", \"\", verifID(pom), 0)" is not in the ignore list
+/-- generated from offset_manager.go (*partitionOffsetManager).AsyncClose -/
+def asyncClose (pDone : Bool) : Bool :=
+  let pDone_v1 : Bool := true
+  pDone_v1
 
 /-- generated from offset_manager.go (*offsetManager).releasePOMs (fragment starting at `releaseDue :=`) -/
 def releaseDue (pDone : Bool) (force : Bool) (pDirty : Bool) (rd : Bool) : Bool :=
